@@ -1008,3 +1008,200 @@ Qed.
 Theorem Rt_accepts_sound_all : forall userun ops sched,
   Rt_accepts userun ops (observable_log userun (run ops sched)) = true.
 Proof. intros. destruct (Sim_run ops sched) as [G S]. now apply accepts_of_sim. Qed.
+
+(* ====================== statements used by Props/C09.v and Props/C10.v ====================== *)
+
+(* ---- C10 ---- *)
+Lemma run_arb : forall ops sched k a, nth_error (arbs (run ops sched)) k = Some a ->
+  AInv (pc (run ops sched)) a /\ a_thr a = 2 + k /\ a_sys a = 0.
+Proof. intros ops sched k a H. exact (g_arb _ (GInv_run ops sched) k a H). Qed.
+
+Lemma fifo_run : forall ops sched k a, nth_error (arbs (run ops sched)) k = Some a ->
+  is_prefix (started a) (execs (pre_stop (hist a))) = true.
+Proof. intros ops sched k a H. destruct (run_arb _ _ _ _ H) as (I & _). eapply started_prefix_pre_stop; eauto. Qed.
+
+Lemma prefix_nodup : forall a b, is_prefix a b = true -> NoDup b -> NoDup a.
+Proof.
+  intros a b H N. apply is_prefix_spec in H as [r ->]. induction a as [|x a IH]; cbn in *; [constructor|].
+  inversion N; subst. constructor; auto. intros X. apply H1. apply in_or_app. auto.
+Qed.
+
+Lemma prefix_in : forall a b i, is_prefix a b = true -> In i a -> In i b.
+Proof. intros a b i H I. apply is_prefix_spec in H as [r ->]. apply in_or_app. auto. Qed.
+
+Lemma once_run : forall ops sched k a, nth_error (arbs (run ops sched)) k = Some a -> NoDup (started a).
+Proof.
+  intros ops sched k a H. destruct (run_arb _ _ _ _ H) as (I & _).
+  eapply prefix_nodup; [eapply started_prefix_pre_stop; eauto|].
+  eapply prefix_nodup; [apply execs_pre_stop_prefix | apply (ai_nodup _ _ I)].
+Qed.
+
+Lemma pre_stop_split : forall pre post, exists r, pre = pre_stop (pre ++ Stop :: post) ++ r.
+Proof.
+  induction pre as [|[|x] pre IH]; intros post; cbn.
+  - exists []. auto.
+  - eexists. reflexivity.
+  - destruct (IH post) as [r E]. exists r. now rewrite <- E.
+Qed.
+
+Lemma after_stop_run : forall ops sched k a pre post, nth_error (arbs (run ops sched)) k = Some a ->
+  hist a = pre ++ Stop :: post -> forall i, In i (execs post) -> ~ In i (started a).
+Proof.
+  intros ops sched k a pre post H E i Hi Hs. destruct (run_arb _ _ _ _ H) as (I & _).
+  pose proof (ai_nodup _ _ I) as N. pose proof (started_prefix_pre_stop _ _ I) as P.
+  rewrite E in N, P. apply (prefix_in _ _ i P) in Hs.
+  destruct (pre_stop_split pre post) as [r Er].
+  assert (In i (execs pre)) as Hp by (rewrite Er, execs_app; apply in_or_app; auto).
+  rewrite execs_app in N. cbn in N. clear - N Hi Hp.
+  induction (execs pre) as [|x l IH]; cbn in *; [contradiction|]. inversion N; subst.
+  destruct Hp as [->|Hp]; [apply H1; apply in_or_app; auto | auto].
+Qed.
+
+Lemma identity_run : forall ops sched k a e, nth_error (arbs (run ops sched)) k = Some a -> In e (alog a) ->
+  e_thr e = a_thr a /\ a_thr a = 2 + k /\ e_sys e = a_sys a /\ a_sys a = 0.
+Proof.
+  intros ops sched k a e H He. destruct (run_arb _ _ _ _ H) as (I & T1 & T2).
+  destruct (ai_id _ _ I e He) as [A B]. auto.
+Qed.
+
+(* the result of a send is false iff the receiver is gone (or the arbiter never existed) *)
+Lemma send_result : forall s ops' k c,
+  olog (send_op s ops' k c) = olog s ++ [if rx_alive k (arbs s) then RTrue else RFalse] /\
+  (rx_alive k (arbs s) = false <-> (forall a, nth_error (arbs s) k = Some a -> ph a = Dropped)).
+Proof.
+  intros. split.
+  - unfold send_op. destruct (rx_alive k (arbs s)); reflexivity.
+  - unfold rx_alive. destruct (nth_error (arbs s) k) as [a|]; [|split; [intros _ a H; discriminate | auto]].
+    split.
+    + intros H b Hb. inversion Hb; subst b. destruct (ph a); cbn in H; try discriminate; auto.
+    + intros H. rewrite (H a eq_refl). reflexivity.
+Qed.
+
+(* a send to an arbiter whose receiver is gone changes nothing; the receiver never comes back *)
+Lemma dropped_absorbing : forall s l k a, nth_error (arbs s) k = Some a -> ph a = Dropped ->
+  exists a', nth_error (arbs (step s l) ) k = Some a' /\ ph a' = Dropped /\ alog a' = alog a.
+Proof.
+  intros s l k a E P.
+  assert (forall f, (forall b, ph b = Dropped -> ph (f b) = Dropped /\ alog (f b) = alog b) ->
+          forall j, exists a', nth_error (upd j f (arbs s)) k = Some a' /\ ph a' = Dropped /\ alog a' = alog a) as U.
+  { intros f Hf j. rewrite nth_upd. destruct (Nat.eqb_spec k j) as [<-|N]; rewrite ?E; cbn; eauto.
+    all: try (destruct (Hf a P); eauto). }
+  assert (forall c b, ph b = Dropped -> ph (push c b) = Dropped /\ alog (push c b) = alog b) as HP.
+  { intros c b Hb. rewrite push_dropped; auto. }
+  destruct l as [| j | j | | | j]; cbn [step].
+  - unfold coord. destruct (rest s) as [|o ops']; eauto. destruct o; cbn; unfold send_op, wait_op;
+      repeat match goal with |- context [if ?c then _ else _] => destruct c end; cbn; eauto.
+    all: try (apply U; apply HP).
+    exists a. rewrite nth_error_app1; auto. apply nth_error_Some. congruence.
+  - cbn. apply U. intros b Hb. unfold runner. rewrite Hb. auto.
+  - unfold task_step. destruct (nth_error (arbs s) j) as [b|] eqn:Eb; eauto.
+    destruct (ph b) eqn:Pb; eauto. destruct (lq b) eqn:Lb; eauto.
+    assert (j <> k) as N by (intros ->; congruence).
+    destruct (tkind t); cbn; rewrite ?upd_upd; rewrite nth_upd_other by auto; eauto.
+  - unfold sys_step. destruct (alive s); eauto. destruct (sysq s) as [|[c|r|d] q]; cbn; eauto.
+    rewrite stop_all_nth, E. cbn. eexists. split; eauto.
+    destruct (iter_fields (count_occ Nat.eq_dec (reg s) k) a) as [_ F]. split; [congruence|].
+    clear. induction (count_occ Nat.eq_dec (reg s) k); cbn; auto. now rewrite alog_push.
+  - unfold sys_ret. destruct (alive s); eauto. destruct (exitc s); cbn; eauto.
+  - unfold drop_step. destruct (nth_error (arbs s) j) as [b|] eqn:Eb; eauto. destruct (ph b) eqn:Pb; eauto.
+Qed.
+
+(* join returns only once the loop has ended and the thread has finished (phase Dropped comes after Ended) *)
+Lemma join_only_after_end : forall s k ops', rest s = OJoin k :: ops' ->
+  olog (step s LCoord) = olog s ++ [RJoined] -> forall a, nth_error (arbs s) k = Some a -> ph a = Dropped.
+Proof.
+  intros s k ops' R H a E. cbn [step] in H. unfold coord in H. rewrite R in H. unfold wait_op in H. rewrite E in H.
+  destruct (ph a) eqn:P; auto; cbn in H.
+  - destruct (quiescent s); cbn in H; [apply app_inv_head in H; discriminate|].
+    apply (f_equal (@length _)) in H. rewrite app_length in H. cbn in H. lia.
+  - destruct (quiescent s); cbn in H; [apply app_inv_head in H; discriminate|].
+    apply (f_equal (@length _)) in H. rewrite app_length in H. cbn in H. lia.
+Qed.
+
+Lemma dropped_only_from_ended : forall s l k a a', nth_error (arbs s) k = Some a ->
+  nth_error (arbs (step s l)) k = Some a' -> ph a' = Dropped -> ph a = Dropped \/ (ph a = Ended /\ l = LDrop k).
+Proof.
+  intros s l k a a' E E' P'.
+  assert (forall f j, (forall b, ph (f b) = Dropped -> ph b = Dropped) ->
+          nth_error (upd j f (arbs s)) k = Some a' -> ph a = Dropped) as U.
+  { intros f j Hf H. rewrite nth_upd in H. destruct (Nat.eqb_spec k j) as [<-|N]; rewrite E in H; cbn in H; inversion H; subst; auto. }
+  assert (forall c b, ph (push c b) = Dropped -> ph b = Dropped) as HP by (intros c b; now rewrite ph_push).
+  destruct l as [| j | j | | | j]; cbn [step] in E'.
+  - left. unfold coord in E'. destruct (rest s) as [|o ops']; [congruence|]. destruct o; cbn in E'; unfold send_op, wait_op in E';
+      repeat match type of E' with context [if ?c then _ else _] => destruct c end; cbn in E'; try congruence;
+      try (eapply U; [|exact E']; apply HP).
+    rewrite nth_error_app1 in E' by (apply nth_error_Some; congruence). congruence.
+  - left. cbn in E'. eapply U; [|exact E']. intros b. unfold runner. destruct (ph b) eqn:X; try (intros; congruence).
+    destruct (chan b) as [|[|t] c]; cbn; intros; congruence.
+  - left. unfold task_step in E'. destruct (nth_error (arbs s) j) as [b|] eqn:Eb; [|congruence].
+    destruct (ph b) eqn:Pb; try congruence. destruct (lq b) eqn:Lb; [congruence|].
+    assert (forall b0, ph (start_task b0) = Dropped -> ph b0 = Dropped) as HS.
+    { intros b0. destruct (start_fields b0) as (_ & _ & _ & F). now rewrite F. }
+    destruct (tkind t); cbn in E'; rewrite ?upd_upd in E'; (eapply U; [|exact E']); auto.
+    intros b0 X. apply HS. eapply HP; eauto.
+  - left. unfold sys_step in E'. destruct (alive s); [|congruence]. destruct (sysq s) as [|[c|r|d] q]; cbn in E'; try congruence.
+    rewrite stop_all_nth, E in E'. cbn in E'. inversion E'; subst a'.
+    destruct (iter_fields (count_occ Nat.eq_dec (reg s) k) a) as [_ F]. congruence.
+  - left. unfold sys_ret in E'. destruct (alive s); [|congruence]. destruct (exitc s); cbn in E'; congruence.
+  - unfold drop_step in E'. destruct (nth_error (arbs s) j) as [b|] eqn:Eb; [|left; congruence].
+    destruct (ph b) eqn:Pb; try (left; congruence). cbn in E'. rewrite nth_upd in E'.
+    destruct (Nat.eqb_spec k j) as [->|N]; [|left; congruence]. right. rewrite E in Eb. inversion Eb; subst b. auto.
+Qed.
+
+(* ---- C09 ---- *)
+Lemma code_run : forall ops sched c, ret (run ops sched) = Some c ->
+  exitc (run ops sched) = Some c /\ alive (run ops sched) = false.
+Proof.
+  intros ops sched c H. pose proof (gi_ret _ (GInv_run ops sched)) as R. rewrite H in R.
+  destruct (alive (run ops sched)); [discriminate|]. auto.
+Qed.
+
+(* the one-shot: the code of the first Exit processed is kept, later Exits do not change it *)
+Lemma exit_first_wins : forall s l c, exitc s = Some c -> exitc (step s l) = Some c.
+Proof.
+  intros s l c H. destruct l as [| j | j | | | j]; cbn [step].
+  - unfold coord. destruct (rest s) as [|o ops']; auto. destruct o; cbn; unfold send_op, wait_op;
+      repeat match goal with |- context [if ?c then _ else _] => destruct c end; cbn; auto.
+  - auto.
+  - unfold task_step. destruct (nth_error (arbs s) j); auto. destruct (ph a); auto. destruct (lq a); auto. destruct (tkind t); auto.
+  - unfold sys_step. destruct (alive s); auto. destruct (sysq s) as [|[c0|r|d] q]; cbn; auto. now rewrite H.
+  - unfold sys_ret. destruct (alive s); auto. destruct (exitc s); auto.
+  - unfold drop_step. destruct (nth_error (arbs s) j); auto. destruct (ph a); auto.
+Qed.
+
+Lemma exit_processed : forall s c q, alive s = true -> sysq s = Exit c :: q -> exitc s = None ->
+  exitc (step s LSys) = Some c /\ (forall k, In k (reg s) -> forall a, nth_error (arbs (step s LSys)) k = Some a -> stopping a).
+Proof.
+  intros s c q A Q X. cbn [step]. unfold sys_step. rewrite A, Q. cbn. rewrite X. split; auto.
+  intros k Hk a Ha. rewrite stop_all_nth in Ha. destruct (nth_error (arbs s) k); [|discriminate]. inversion Ha.
+  apply stopping_iter_pos. now apply count_occ_In.
+Qed.
+
+Lemma exit_only_by_sys : forall s l, exitc s = None -> exitc (step s l) <> None ->
+  l = LSys /\ exists c q, sysq s = Exit c :: q /\ alive s = true /\ exitc (step s l) = Some c.
+Proof.
+  intros s l X H. destruct l as [| j | j | | | j]; cbn [step] in *.
+  - exfalso. apply H. unfold coord. destruct (rest s) as [|o ops']; auto. destruct o; cbn; unfold send_op, wait_op;
+      repeat match goal with |- context [if ?c then _ else _] => destruct c end; cbn; auto.
+  - exfalso. apply H. auto.
+  - exfalso. apply H. unfold task_step. destruct (nth_error (arbs s) j); auto. destruct (ph a); auto. destruct (lq a); auto. destruct (tkind t); auto.
+  - split; auto. unfold sys_step in *. destruct (alive s); [|congruence]. destruct (sysq s) as [|[c0|r|d] q]; cbn in *; try congruence.
+    rewrite X. eauto.
+  - exfalso. apply H. unfold sys_ret. destruct (alive s); auto. rewrite X. auto.
+  - exfalso. apply H. unfold drop_step. destruct (nth_error (arbs s) j); auto. destruct (ph a); auto.
+Qed.
+
+Lemma run_maps : run_view true 0 = VOk /\ (forall c, c <> 0%Z -> run_view true c = VErr) /\ (forall c, run_view false c = VCode c).
+Proof.
+  split; [reflexivity|]. split; [|reflexivity]. intros c H. unfold run_view. destruct (Z.eqb_spec c 0); congruence.
+Qed.
+
+(* every arbiter created before an Exit was issued is stopping in every state after an Exit has been processed *)
+Lemma stops_all_run : forall ops sched k a, nth_error (arbs (run ops sched)) k = Some a -> a_pre a = true ->
+  exitc (run ops sched) <> None -> stopping a.
+Proof.
+  intros ops sched k a H Hp X. pose proof (GInv_run ops sched) as G.
+  assert (issued (run ops sched) = true) as Is.
+  { destruct (issued (run ops sched)) eqn:I; auto. destruct (g_iss _ G I) as (_ & B & _). congruence. }
+  destruct (g_doom _ G k a H Hp Is) as [D|(_ & D & _)]; [auto | congruence].
+Qed.
